@@ -70,6 +70,9 @@ CHECKS = {
     "C19": (True, "exhaustive enumeration of (public function variant x corpus circuit) with a fixed edit history applied to result and to argument, on the implementation, deep-snapshot oracle",
             "68 function variants (all of tx except syn/aig, props, sat incl. approx_model_count on the stand-in, writers, to_file, lint, every read-only Circuit method, add_subcircuit/fill_blackbox's circuit argument) x 212 corpus circuits (enumerated + flops with two outputs, constants, cycles, escaped names): argument snapshot (all node attribute dicts, edges, name, registry incl. BlackBox identity and pin sets) identical after the call, also when it raises; 12 edits applied to every returned Circuit must not change the argument and vice versa.",
             TRUST + SAT_TRUST, "4/C19"),
+    "C03": (True, "bounded exhaustive enumeration of circuits x output markings x blackbox pin connections x styles x hash seeds through writer and reader of the implementation, vs reference functions and graph identity",
+            "All circuits (2,1),(1,2) with EVERY non-empty output subset (outputs that are inputs included), (2,2) with sink / all outputs, escaped identifiers, constants 0/1 feeding gates and as outputs, x constants (Kleene comparison), 14 blackbox circuits (two types, every pin connected or not, pin tied to a constant, escaped nets), both behavioral values, 3 hash seeds, and the to_file/from_file path: same name, io, instances, pin nets, functions at outputs and blackbox input pins; identical graph when there are no constants and gate primitives are written.",
+            TRUST, "4/C03"),
 }
 
 NOT_YET = "check not built yet in this session (planned in DESIGN.md section 4); not claimed until its machinery exists"
